@@ -370,6 +370,17 @@ def same_plain_value(old, new):
     return False
 
 
+def would_hold_the_same(recv, fname, val):
+    """Would a node built with this value hold, in that field, the same value the receiver holds?
+    (`but(max_time=1)` on a pattern whose bound is 1.0: the field converter makes it 1.0 again.)
+    'Unchanged' is judged by what the node would hold, not by what was passed."""
+    try:
+        fresh = fresh_construct(recv, {fname: val})
+    except Exception:
+        return False
+    return same_plain_value(getattr(recv, fname), getattr(fresh, fname))
+
+
 def child_field_names(obj):
     """Fields of obj that hold AST children (directly or in a tuple)."""
     out = []
@@ -921,7 +932,7 @@ def execute(sc, stats=None, upto=None, trace=None):
                 if getattr(recv, fname) is val:
                     if result is not recv:
                         return _viol('but-identity', 'but(%s=<same object>) returned a different object' % fname, op_desc, sc, step)
-                elif same_plain_value(getattr(recv, fname), val) and result is recv:
+                elif result is recv and (same_plain_value(getattr(recv, fname), val) or would_hold_the_same(recv, fname, val)):
                     # another object, the same value (a tuple rebuilt around the very same children, an
                     # equal string / number of the same type): "unchanged values" by any reading that
                     # looks at values, a change by one that looks at identity. Both answers are
